@@ -44,6 +44,10 @@ func dhcpKind(name string, relayed bool) kindDef {
 			if strings.Contains(cfg, "/fault=") {
 				return []string{"DR"}
 			}
+			if relayed {
+				// DRM: renewed once through a hop that adds a Remote-ID but no Circuit-ID, then the session ends
+				return []string{"D", "DR", "DRN", "DRL", "DRM"}
+			}
 			return []string{"D", "DR", "DRN", "DRL"}
 		},
 		// thorough: DISCOVER repeated; DISCOVER again while holding a lease (re-offer of the leased address); two renewals;
@@ -115,6 +119,13 @@ func (w *dhcpWorld) step(c dhcpClient, s byte, addr net.IP) (net.IP, dhcpv4.Mess
 		rs = w.send(c, dhcpdrv.Msg{Type: dhcpv4.MessageTypeRequest, ReqIP: addr, ServerID: w.d.ServerIP()}, true)
 	case 'N': // renewal: unicast by the client itself, ciaddr set
 		rs = w.send(c, dhcpdrv.Msg{Type: dhcpv4.MessageTypeRequest, CIAddr: addr}, false)
+	case 'M': // renewal that reaches the server through a relay hop whose option 82 carries a Remote-ID only (no Circuit-ID)
+		m := dhcpdrv.Msg{Type: dhcpv4.MessageTypeRequest, CIAddr: addr, CHAddr: c.mac}
+		if c.giaddr != nil {
+			m.GIAddr, m.RemoteID = c.giaddr, "ri"
+		}
+		rs = w.d.Send(m)
+		w.settle()
 	}
 	for _, r := range rs {
 		if r.Type == dhcpv4.MessageTypeOffer || r.Type == dhcpv4.MessageTypeAck {
@@ -195,8 +206,8 @@ func runDHCP(e *kenv, k kase, relayed bool) (res result) {
 				panic(fmt.Sprintf("harness: victim REQUEST answered %v %v", mt, a))
 			}
 			w.vLeased = true
-		case 'N':
-			if _, mt := w.step(w.v, 'N', w.vAddr); mt != dhcpv4.MessageTypeAck {
+		case 'N', 'M':
+			if _, mt := w.step(w.v, k.Prefix[i], w.vAddr); mt != dhcpv4.MessageTypeAck {
 				panic("harness: victim renewal not acknowledged")
 			}
 		case 'L', 'X':
